@@ -105,7 +105,9 @@ impl CandidateZone {
         let mut unique = Vec::with_capacity(original_len);
 
         for zone in zones {
-            let key = (zone.zone_id, zone.segment_id.clone());
+            // Zone ids are only unique per (segment, uid): a wildcard (`*`) scope yields
+            // zones for several uids in the same segment, so the uid is part of the identity.
+            let key = (zone.zone_id, zone.segment_id.clone(), zone.uid.clone());
             if seen.insert(key) {
                 unique.push(zone);
             }
